@@ -18,6 +18,7 @@ def evOf : List String → Option DcEv
   | ["recon"] => some .reconFire
   | ["stop"] => some .stopFire
   | ["local"] => some .localEv
+  | ["latedata"] => some .lateData
   | _ => none
 
 def b (x : Bool) : Nat := if x then 1 else 0
@@ -35,7 +36,7 @@ def step (s : Dc) (toks : List String) : Dc × List String :=
       let newOther := if e == .connectCb then 0 else count s'.epoch .other - count s.epoch .other
       -- for a local event: is the call made at all (the is_registered guard)? what reaches the wire is the ghost
       let oth := if e == .localEv then toString (b (s.srpc && s.registered == 1)) else "-"
-      (s', [s!"DC started={b s'.started} srpc={b s'.srpc} registered={s'.registered} reg={newReg} other={oth}"])
+      (s', [s!"DC started={b s'.started} srpc={b s'.srpc} registered={s'.registered} reg={newReg} other={oth} stale={b s'.stale}"])
 
 def main : IO Unit := do loop (← IO.getStdin) {} step
 end Driver.DevConnDrv
